@@ -104,15 +104,16 @@ NONE = ir.const(0)
 
 
 class HeapExec(symexec.Executor):
-    def __init__(self, contracts=None, loop_invariants=None, list_attrs=None, dict_attrs=None, classes=None, ghost=None):
+    def __init__(self, contracts=None, loop_invariants=None, list_attrs=None, dict_attrs=None, classes=None, ghost=None, plain_attrs=()):
         super().__init__(summaries={}, loop_invariants=loop_invariants or {})
         self.contracts = contracts or {}        # method / function name -> HContract
-        self.list_attrs = set(LIST_ATTRS) | set(list_attrs or ())
+        self.list_attrs = (set(LIST_ATTRS) | set(list_attrs or ())) - set(plain_attrs)     # plain_attrs: fields holding a *reference* to a list object
         self.dict_attrs = set(DICT_ATTRS) | set(dict_attrs or ())
-        self.classes = set(classes or ()) | {'Wire', 'Logic', 'Exception', 'BidirWire', 'HWSystem', 'Simulator', 'ClockDriverSimulator', 'str', 'int', 'FieldInspector', 'ValueFormatter', 'Waveform', 'InPort', 'OutPort'}
+        self.classes = set(classes or ()) | {'Wire', 'Logic', 'Exception', 'BidirWire', 'HWSystem', 'Simulator', 'ClockDriverSimulator', 'str', 'int', 'FieldInspector', 'ValueFormatter', 'Waveform', 'InPort', 'OutPort', 'FPNum', 'FixedPoint', 'float', 'list'}
         self.ghost = ghost or {}
         self.written = set()                    # map names written (for frame obligations)
         self.known_refs = []                    # references a newly allocated object is known to differ from
+        self._len_axioms = set()
 
     def merge_states(self, c, sa, sb):
         return merge_states_heap(c, sa, sb, self)
@@ -135,10 +136,18 @@ class HeapExec(symexec.Executor):
         super().oblige(kind, st, goal, node, note)
 
     # ------------------------------------------------------------------ maps
+    def _len_nonneg(self, m):
+        # a Python list never has a negative length: a fact about every list-length map, in every state
+        if m.base.startswith('len:') and m.base not in self._len_axioms:
+            self._len_axioms.add(m.base)
+            o = 'o%d' % next(_fresh)
+            self.assumptions.append(ir.forall([o], ir.ge(FMap(m.base, m.arity).read(*([ir.var(o)] * m.arity)), 0)))
+
     def fmap(self, st, name, arity):
         key = ('M', name)
         if key not in st.heap:
             st.heap[key] = FMap(name, arity)
+        self._len_nonneg(st.heap[key])
         return st.heap[key]
 
     def read_field(self, st, obj, attr):
@@ -163,6 +172,7 @@ class HeapExec(symexec.Executor):
         else:
             arity = old.arity
         st.heap[key] = FMap('%s!%d' % (name.split('!')[0], next(_fresh)), arity)
+        self._len_nonneg(st.heap[key])
         self.written.add(name)
 
     # ------------------------------------------------------------------ expressions
@@ -220,6 +230,23 @@ class HeapExec(symexec.Executor):
     def e_Attribute(self, n, st):
         return self.get_attr(self.ev(n.value, st), n.attr, st, n)
 
+    def e_IfExp(self, n, st):
+        c = self.truth(self.ev(n.test, st))
+        if c.op == 'bconst':
+            return self.ev(n.body if c.val else n.orelse, st)
+        # a branch outside the modelled subset must be unreachable: that is an obligation, the other branch the value
+        try:
+            b = self.ev(n.orelse, st)
+        except Unsupported:
+            self.oblige('ifexp_else_unreachable', st, c, n, 'the else branch is outside the modelled subset')
+            return self.ev(n.body, st)
+        try:
+            a = self.ev(n.body, st)
+        except Unsupported:
+            self.oblige('ifexp_then_unreachable', st, ir.not_(c), n, 'the then branch is outside the modelled subset')
+            return b
+        return merge_values(c, a, b, 'conditional expression')
+
     def e_List(self, n, st):
         if n.elts: raise Unsupported('non-empty list literal')
         return 'EMPTY_LIST'
@@ -265,6 +292,8 @@ class HeapExec(symexec.Executor):
             else:
                 raise Unsupported('in %r' % (r,))
             return res if op == 'In' else ir.not_(res)
+        if isinstance(l, ClassRef) and isinstance(r, ClassRef) and op in ('Eq', 'NotEq', 'Is', 'IsNot'):
+            return ir.bconst((l.name == r.name) == (op in ('Eq', 'Is')))
         if isinstance(l, StrConst) or isinstance(r, StrConst):
             l = intern(l.s) if isinstance(l, StrConst) else l
             r = intern(r.s) if isinstance(r, StrConst) else r
@@ -319,12 +348,17 @@ class HeapExec(symexec.Executor):
                 x = self.ev(n.args[0], st)
                 if isinstance(x, ListH): return self.list_len(st, x)
                 if isinstance(x, tuple) and not (x and x[0] == 'range'): return ir.const(len(x))
+                if isinstance(x, T) and x.sort == 'i': return self.list_len(st, ListH(x, '#items'))     # a reference to a list object
                 if isinstance(x, StrConst): return ir.const(len(x.s))
                 raise Unsupported('len of %r' % (x,))
             if nm == 'range':
                 return symexec._b_range(self, st, n, *[self.ev(a, st) for a in n.args])
             if nm in ('print',):
                 self.dropped.append('print@%s' % n.lineno); return NONE
+            if nm == 'type' and getattr(self, 'numeric_int', False) and len(n.args) == 1 and isinstance(self.ev(n.args[0], st), T):
+                return ClassRef('int')      # contract option: numeric values are Python ints
+            if nm == 'super' and not n.args:
+                return ClassRef('super')
             if nm in ('type', 'str', 'format'):
                 return Opaque(nm)
             if nm in self.ghost:
@@ -373,7 +407,7 @@ class HeapExec(symexec.Executor):
             if isinstance(base, ClassRef):
                 key = 'm:%s.%s' % (base.name, meth)
                 if key in self.contracts:
-                    return self.apply_contract(self.contracts[key], None, args, st, n)
+                    return self.apply_contract(self.contracts[key], st.loc.get('self') if base.name == 'super' else None, args, st, n)
                 raise Unsupported('call %s.%s' % (base.name, meth))
             if isinstance(base, T):
                 if ('acc:' + meth) in self.contracts and not args:
@@ -390,6 +424,8 @@ class HeapExec(symexec.Executor):
 
     def list_method(self, lst, meth, args, st, n):
         if meth == 'append':
+            if isinstance(args[0], StrConst): args = [intern(args[0].s)]
+            elif isinstance(args[0], Opaque): args = [self.fresh('opaque')]
             ln = self.list_len(st, lst)
             el = self.fmap(st, 'el:' + lst.attr, 2); lm = self.fmap(st, 'len:' + lst.attr, 1)
             st.heap[('M', 'el:' + lst.attr)] = el.write((lst.owner, ln), args[0])
@@ -441,23 +477,36 @@ class HeapExec(symexec.Executor):
             res_list = ListH(NONE, nm)
             self.havoc_map(st, 'len:' + nm); self.havoc_map(st, 'el:' + nm)
             self.assumptions.append(ir.implies(st.pc, ir.ge(self.list_len(st, res_list), 0)))
+            prev_old[0] = pre; pre.loc = dict(env)
+            for e in c.ensures:      # `result` is the returned list: result[k], len(result)
+                self.assumptions.append(ir.implies(st.pc, self.truth(evs(e, st, {'result': res_list}))))
             return res_list
-        if c.returns:
+        res_tuple = None
+        if isinstance(c.returns, int) and not isinstance(c.returns, bool) and c.returns > 1:
+            # a tuple of that many values: result0, result1, ... in the ensures
+            res_tuple = tuple(self.fresh('ret%d_%s' % (k, c.name.split('.')[-1])) for k in range(c.returns))
+        elif c.returns:
             res = self.fresh('ret_' + c.name.split('.')[-1])
         prev_old[0] = pre
         pre.loc = dict(env)
+        extra_loc = {'result': res} if res is not None else ({'result%d' % k: v for k, v in enumerate(res_tuple)} if res_tuple else None)
         for e in c.ensures:
-            self.assumptions.append(ir.implies(ir.band_(st.pc, ir.not_(raise_cond)), self.truth(evs(e, st, {'result': res} if res is not None else None))))
+            self.assumptions.append(ir.implies(ir.band_(st.pc, ir.not_(raise_cond)), self.truth(evs(e, st, extra_loc))))
         if c.raises is not None and not (raise_cond.op == 'bconst' and not raise_cond.val):
             self.pending_raise = getattr(self, 'pending_raise', [])
             self.pending_raise.append((ir.band_(st.pc, raise_cond), pre, c.name, n))
             st.pc = ir.band_(st.pc, ir.not_(raise_cond))
+        if res_tuple is not None: return res_tuple
         return res if res is not None else NONE
 
     # ------------------------------------------------------------------ statements
     def assign_to(self, target, v, st):
         if isinstance(target, ast.Name):
             st.loc[target.id] = v
+            return
+        if isinstance(target, ast.Tuple):
+            if not (isinstance(v, tuple) and len(v) == len(target.elts)): raise Unsupported('tuple assignment of %r' % (v,))
+            for t, x in zip(target.elts, v): self.assign_to(t, x, st)
             return
         if isinstance(target, ast.Attribute):
             base = self.ev(target.value, st)
@@ -490,6 +539,16 @@ class HeapExec(symexec.Executor):
             idx = self.ev(target.slice, st)
             if isinstance(base, DictH):
                 k = self.key(idx)
+                if v == 'EMPTY_LIST':
+                    # a new list object: a fresh reference outside the alloc set, with no elements
+                    r = self.fresh('new_list')
+                    am = self.fmap(st, 'f:#alloc', 1)
+                    self.assumptions.append(ir.implies(st.pc, ir.band_(ir.ne(r, NONE), ir.eq(am.read(r), 0), *[ir.ne(r, x) for x in self.known_refs])))
+                    st.heap[('M', 'f:#alloc')] = am.write((r,), 1); self.written.add('f:#alloc')
+                    self.known_refs.append(r)
+                    lm = self.fmap(st, 'len:#items', 1); st.heap[('M', 'len:#items')] = lm.write((r,), 0); self.written.add('len:#items')
+                    v = r
+                if isinstance(v, StrConst): v = intern(v.s)
                 hm = self.fmap(st, 'has:' + base.attr, 2); vm = self.fmap(st, 'val:' + base.attr, 2)
                 st.heap[('M', 'has:' + base.attr)] = hm.write((base.owner, k), 1)
                 st.heap[('M', 'val:' + base.attr)] = vm.write((base.owner, k), v)
@@ -624,7 +683,8 @@ class HeapExec(symexec.Executor):
             lo, hi, step = it[1]
             if not (ir.is_const(step) and step.val == 1): raise Unsupported('range step')
             elem = None
-        elif isinstance(it, ListH):
+        elif isinstance(it, (ListH, T)):
+            if isinstance(it, T): it = ListH(it, '#items')        # a reference to a list object: its elements are items(ref)
             lo = ir.const(0); hi = self.list_len(st, it); elem = it
         elif isinstance(it, (DictH, KeysH, ValuesH)):
             # iteration over dict keys / values in insertion order: modelled through the ghost key list of the dict
